@@ -44,14 +44,41 @@ func vC16RelayWindows(rc *runCtx) {
 		"quiet": tp.Bool("rw.q", 500), "overwrite": tp.Bool("rw.y", 500), "directory": tp.Bool("rw.d", 500)}
 	cfgJS, _ := json.Marshal(cfgMap)
 	cfgPayload := vEncode(cfgJS)
-	noisy, kinds := vWinNoise(tp, "CFG", cfgPayload)
-	if tp.Bool("rw.redraw", 350) {
+	// the same for a server that is not Windows-framed: the relay reads both handshake lines with the tmux
+	// junk-tolerant reader (it cannot know yet whether a tmux sits in between)
+	win := !tp.Bool("rw.tmuxnoise", 400)
+	nl, idSuffix := "!\n", int64(10)
+	if !win {
+		nl, idSuffix = "\n", 0
+	}
+	var noisy []byte
+	var kinds []string
+	if win {
+		noisy, kinds = vWinNoise(tp, "CFG", cfgPayload)
+	} else {
+		noisy, kinds = vTmuxNoise(tp, "CFG", cfgPayload)
+		kinds = append(kinds, "tmux-reader")
+	}
+	if win && tp.Bool("rw.redraw", 350) {
 		// the console draws the beginning of the line, moves the cursor, and draws the line again
 		k := 1 + tp.Draw("rw.redrawlen", vMin(len(cfgPayload)-1, 30))
 		noisy = append([]byte(fmt.Sprintf("#CFG:%s\x1b[%d;1H", cfgPayload[:k], 2+tp.Draw("rw.row", 40))), noisy...)
 		kinds = append(kinds, "line-redrawn")
 	}
-	rc.res.ClassKey = fmt.Sprintf("relay-windows %v", vKindSet(kinds))
+	act, _ := json.Marshal(map[string]any{"lang": "go", "version": "1.1.8", "confirm": true, "newline": nl, "protocol": 4, "binary": true, "support_dir": true})
+	actLine := []byte("#ACT:" + vEncode(act) + nl)
+	lbl := "relay-windows"
+	if !win {
+		// what reaches the relay from the client's side is not rendered by any terminal; keys typed ahead, or the
+		// tail of a stale line, may sit in front of the marker
+		if tp.Bool("rw.actfront", 400) {
+			front := []string{"ls -l", "#SUCC:stale", "##", "abc#", "#A", "\x1b[?62;1;6c"}[tp.Draw("rw.actfrontk", 6)]
+			actLine = append([]byte(front), actLine...)
+			kinds = append(kinds, "front-text-before-ACT")
+		}
+		lbl = "relay-tmux"
+	}
+	rc.res.ClassKey = fmt.Sprintf("%s %v", lbl, vKindSet(kinds))
 	rc.res.Scenario["noise"] = vKindSet(kinds)
 	ok, stuckAt := true, ""
 	cDone, sDone := false, false
@@ -61,20 +88,19 @@ func vC16RelayWindows(rc *runCtx) {
 			ok, stuckAt = false, "client: trigger"
 			return
 		}
-		act, _ := json.Marshal(map[string]any{"lang": "go", "version": "1.1.8", "confirm": true, "newline": "!\n", "protocol": 4, "binary": true, "support_dir": true})
-		cIn.Write([]byte("#ACT:" + vEncode(act) + "!\n"))
-		if !waitUntil(func() bool { return bytes.Contains(cGot, []byte("#CFG:")) && bytes.Contains(cGot[bytes.Index(cGot, []byte("#CFG:")):], []byte("!")) || bytes.Contains(cGot, []byte("#FAIL:")) }) {
+		cIn.Write(actLine)
+		if !waitUntil(func() bool { return bytes.Contains(cGot, []byte("#CFG:")) && bytes.Contains(cGot[bytes.Index(cGot, []byte("#CFG:")):], []byte(nl[:1])) || bytes.Contains(cGot, []byte("#FAIL:")) }) {
 			ok, stuckAt = false, "client: CFG"
 			return
 		}
-		cIn.Write([]byte("#EXIT:" + vEncode([]byte("done")) + "!\n"))
+		cIn.Write([]byte("#EXIT:" + vEncode([]byte("done")) + nl))
 	})
 	w.Go("server", nil, func() {
 		defer func() { sDone = true }()
 		if !waitUntil(func() bool { return relay != nil }) {
 			return
 		}
-		sOut.Write([]byte(fmt.Sprintf("\x1b7\x07::TRZSZ:TRANSFER:S:1.1.8:%013d:0\r\n", int64(4668480000010)+int64(tp.Draw("rw.id", 90))*100)))
+		sOut.Write([]byte(fmt.Sprintf("\x1b7\x07::TRZSZ:TRANSFER:S:1.1.8:%013d:0\r\n", int64(4668480000000)+idSuffix+int64(tp.Draw("rw.id", 90))*100)))
 		if !waitUntil(func() bool { return bytes.Contains(sGot, []byte("#ACT:")) }) {
 			ok, stuckAt = false, "server: ACT"
 			return
@@ -87,29 +113,30 @@ func vC16RelayWindows(rc *runCtx) {
 	x := &xferWorld{rc: rc, w: w, o: &xferOpts{}}
 	x.settle(300 * time.Millisecond)
 	if !ok || !cDone || !sDone {
-		rc.violate("noise", "C16:relay-windows-stuck", "through a relay in front of a Windows-framed server the handshake did not complete (%s); noise %v; the server's console wrote %s; the client got %s", stuckAt, vKindSet(kinds), vQuote(noisy, 200), vQuote(vTail(cGot, vMax0(len(cGot)-200)), 210))
+		rc.violate("noise", "C16:"+lbl+"-stuck", "through a relay in front of a noisy (%s) server the handshake did not complete (%s); noise %v; the server's console wrote %s; the client got %s", lbl, stuckAt, vKindSet(kinds), vQuote(noisy, 200), vQuote(vTail(cGot, vMax0(len(cGot)-200)), 210))
 		return
 	}
 	if f := bytes.Index(cGot, []byte("#FAIL:")); f >= 0 {
 		end := bytes.IndexAny(cGot[f:], "!\n")
+
 		if end < 0 {
 			end = len(cGot) - f
 		}
 		msg, _ := vDecode(string(cGot[f+6 : f+end]))
-		rc.violate("noise", "C16:relay-windows-fail", "the relay could not read the server's CFG through the console decoration: %q; noise %v; the console wrote %s", msg, vKindSet(kinds), vQuote(noisy, 240))
+		rc.violate("noise", "C16:"+lbl+"-fail", "the relay could not read the server's CFG through the console decoration: %q; noise %v; the console wrote %s", msg, vKindSet(kinds), vQuote(noisy, 240))
 		return
 	}
 	i := bytes.Index(cGot, []byte("#CFG:"))
 	if i < 0 {
-		rc.violate("noise", "C16:relay-windows-no-cfg", "no CFG reached the client; noise %v; the console wrote %s", vKindSet(kinds), vQuote(noisy, 240))
+		rc.violate("noise", "C16:"+lbl+"-no-cfg", "no CFG reached the client; noise %v; the console wrote %s", vKindSet(kinds), vQuote(noisy, 240))
 		return
 	}
-	j := bytes.IndexByte(cGot[i:], '!')
+	j := bytes.IndexByte(cGot[i:], nl[0])
 	if j < 0 {
 		j = len(cGot) - i
 	}
 	if msg := vCompareHandshake("#CFG:", []byte("#CFG:"+cfgPayload+"\n"), append(append([]byte{}, cGot[i:i+j]...), '\n')); msg != "" {
-		rc.violate("noise", "C16:relay-windows-cfg", "%s; noise %v; the console wrote %s", msg, vKindSet(kinds), vQuote(noisy, 240))
+		rc.violate("noise", "C16:"+lbl+"-cfg", "%s; noise %v; the console wrote %s", msg, vKindSet(kinds), vQuote(noisy, 240))
 		return
 	}
 	rc.res.Nontrivial = true
